@@ -92,7 +92,7 @@ def run(ctx):
     # the running system: a sequential client against three real server processes - every acknowledgement and every
     # definite refusal ("exists", "not found") has to be true of the item at that moment, through whichever node
     import clusfam
-    lines, nbad = clusfam.real_server_kinds(ctx, ["durable", "slow-replica"], {"DuplicateInsertAcked", "AbsentItemAcked", "SpuriousExists", "SpuriousNotFound",
+    lines, nbad = clusfam.real_server_kinds(ctx, ["durable", "slow-replica", "no-quorum"], {"AckedWithoutQuorum", "DuplicateInsertAcked", "AbsentItemAcked", "SpuriousExists", "SpuriousNotFound",
                                                               "AckedLostOnRestart", "GhostAfterRestart"}, 1 if ctx.tier == "quick" else 3)
     nw = sum(1 for x in lines if '"ev":"wack"' in x)
     ctx.log("real servers: %d write outcomes checked: %d failed checks" % (nw, nbad))
